@@ -1,4 +1,4 @@
 From Coq Require Extraction.
 From Coq Require Import ExtrOcamlBasic.
 From Verif.C04 Require Import Model.
-Extraction "c04_ext.ml" empty run trace ch_trace.
+Extraction "c04_ext.ml" empty run trace ch_trace ser_trace ser_ch_trace.
